@@ -44,6 +44,9 @@ pub enum Build {
     /// the second, independently built copy of the guard-off expander (other directory, other
     /// simulated build machine / time / user, other profile)
     PlainB,
+    /// the guard-off expander with every atomic operation compiled as a call into
+    /// shim/atomrt.c: scheduling points at atomic operations for concurrent groups
+    Atom,
 }
 
 impl Backend {
@@ -68,6 +71,7 @@ impl Build {
             Build::Plain => "plain",
             Build::Hooked => "hooked",
             Build::PlainB => "plainb",
+            Build::Atom => "atom",
         }
     }
     pub fn parse(s: &str) -> Option<Build> {
@@ -75,6 +79,7 @@ impl Build {
             "plain" => Some(Build::Plain),
             "hooked" => Some(Build::Hooked),
             "plainb" => Some(Build::PlainB),
+            "atom" => Some(Build::Atom),
             _ => None,
         }
     }
@@ -609,6 +614,7 @@ pub struct PlanOpts {
     pub backend: Option<Backend>,
     pub build: Option<Build>,
     pub hooked_available: bool,
+    pub atom_available: bool,
     pub feedback: Vec<String>,
     /// paths the expander was observed to touch during expansions (file-system feedback)
     pub fs_feedback: Vec<String>,
@@ -764,6 +770,9 @@ pub fn plan_world(ws: u64, corpus: &Corpus, o: &PlanOpts) -> World {
     if build == Build::Plain {
         faults &= !F_ORDER;
     }
+    // half of the guard-off worlds with concurrent groups run the build whose atomic
+    // operations are scheduling points (every host of the world, the reference too)
+    let build = if build == Build::Plain && faults & F_CONCURRENT != 0 && o.atom_available && rng.chance(1, 2) { Build::Atom } else { build };
 
     // swarm: class mix
     let mut weights = [0u64; 7];
